@@ -35,6 +35,10 @@ def obligations(tier):
         obs.append(Ob(f"{short}_severed_missing", "E1", "h_member", {"member": m, "state": "missing"}, 900, "digest in the manifest, member absent from the envelope: supplied digest kept, wrapper digest correct", weight=60))
         if m != "suit-text":
             obs.append(Ob(f"{short}_inline", "E1", "h_member", {"member": m, "state": "inline"}, 900, "sequence inline in the manifest: only the wrapper digest", weight=40))
+    for i, m in enumerate(MEMBERS):
+        obs.append(Ob(f"pair_missing_present_{i}", "E1", "h_pair", {"fix": {"absent_member": i}}, 1200, f"{m} referenced by digest but absent from the envelope, each other severable member (solver-chosen) severed and present with a stale supplied digest, either description order; supplied digests symbolic", weight=120))
+    obs.append(Ob("member_state_subsets", "E1", "h_subsets", {"deep": tier == "thorough"}, 1800, "each severable member independently present or referenced-but-absent (quick: 4 members = 16 subsets, thorough: all 6 = 64), stale supplied digests", weight=150))
+    obs.append(Ob("wrapper_with_signature_blocks", "E1", "h_signed", {}, 900, "authentication wrapper that already carries 0..2 COSE_Sign1 blocks (empty or non-empty signature bytes, symbolic) next to a stale supplied digest: 5 algorithms", weight=80))
     obs.append(Ob("all_severed", "E1", "h_all", {}, 900, "all severable members severed and present at once, wrapper algorithm symbolic", weight=100))
     obs.append(Ob("length_boundaries_small", "E1", "h_boundary", {"sizes": [23, 24, 255, 256]}, 900, "manifest wrapped length across 23/24 and 255/256 with symbolic sequence number", weight=100))
     # block-wise processing boundaries: wrapped manifest (content + 3-byte head) of exactly 2^k bytes and its neighbours for the
@@ -126,6 +130,54 @@ def build_all(L):
     return {"SUIT_Envelope_Tagged": env}
 
 
+def _member_value(m, i):
+    return {"en": {"suit-text-manifest-description": "d"}} if m == "suit-text" else [{"suit-directive-set-component-index": i}]
+
+
+def build_pair(L):
+    i1 = L.sel("absent_member", list(range(len(MEMBERS))))
+    i2 = L.sel("present_member", list(range(len(MEMBERS))))
+    if i1 == i2:
+        i2 = (i1 + 1) % len(MEMBERS)
+    m1, m2 = MEMBERS[i1], MEMBERS[i2]
+    man = {"suit-manifest-version": 1, "suit-manifest-sequence-number": L.uint("seq", 2**32 - 1)}
+    env = {"suit-authentication-wrapper": {"SuitDigest": {"suit-digest-algorithm-id": L.sel("walg", ["cose-alg-sha-256", "cose-alg-shake128"]), "suit-digest-bytes": L.hex("supplied_w", 2)}}}
+    # description order of the two manifest entries is the solver's choice as well
+    first = L.bool("absent_listed_first")
+    for m in (m1, m2) if first else (m2, m1):
+        man[m] = {"suit-digest-algorithm-id": "cose-alg-sha-384" if m == m1 else "cose-alg-shake256", "suit-digest-bytes": L.hex("supplied_" + ("a" if m == m1 else "p"), 2)}
+    env["suit-manifest"] = man
+    env[m2] = _member_value(m2, 7)
+    return {"SUIT_Envelope_Tagged": env}
+
+
+def build_subsets(L, deep=False):
+    members = MEMBERS if deep else [MEMBERS[0], MEMBERS[1], MEMBERS[4], MEMBERS[5]]
+    man = {"suit-manifest-version": 1, "suit-manifest-sequence-number": L.uint("seq", 23)}
+    env = {"suit-authentication-wrapper": {"SuitDigest": {"suit-digest-algorithm-id": "cose-alg-sha-256", "suit-digest-bytes": "00"}}}
+    algs = ["cose-alg-sha-256", "cose-alg-shake128", "cose-alg-sha-384", "cose-alg-sha-512", "cose-alg-shake256", "cose-alg-shake128"]
+    present = []
+    for i, m in enumerate(members):
+        man[m] = {"suit-digest-algorithm-id": algs[i], "suit-digest-bytes": "aabb"}
+        if L.bool(f"present_{i}"):
+            present.append((i, m))
+    env["suit-manifest"] = man
+    for i, m in present:
+        env[m] = _member_value(m, i)
+    return {"SUIT_Envelope_Tagged": env}
+
+
+def build_signed(L):
+    man = {"suit-manifest-version": 1, "suit-manifest-sequence-number": L.uint("seq")}
+    wrapper = {"SuitDigest": {"suit-digest-algorithm-id": L.sel("walg", HASHES), "suit-digest-bytes": L.hex("supplied_w", 4)}}
+    n = L.sel("blocks", [0, 1, 2])
+    for i in range(n):
+        sig = L.hex(f"sig{i}", 3) if L.bool(f"sig{i}_nonempty") else ""
+        wrapper[f"SuitAuthentication{i + 1}"] = {"CoseSign1Tagged": {"protected": {"suit-cose-algorithm-id": "cose-alg-es-256", "suit-cose-key-id": L.uint(f"kid{i}", 23)}, "unprotected": {}, "payload": None, "signature": sig}}
+    env = {"suit-authentication-wrapper": wrapper, "suit-manifest": man}
+    return {"SUIT_Envelope_Tagged": env}
+
+
 def build_boundary(L, sizes):
     # wrapped manifest = map{1:1, 2:seq, 4:uri}; the uri length is chosen so that, for the smallest sequence-number encoding, the
     # manifest content is exactly `size` bytes; wider sequence numbers then cross the boundary from below
@@ -175,6 +227,22 @@ def _harness(build):
 
 def h_member(member, state, exclude=()):
     return _harness(lambda L: build_member(L, member, state))
+
+
+def h_pair(fix=None, exclude=()):
+    from vlib import chx
+
+    chx.FIXED.clear()
+    chx.FIXED.update(fix or {})
+    return _harness(build_pair)
+
+
+def h_subsets(deep=False, exclude=()):
+    return _harness(lambda L: build_subsets(L, deep))
+
+
+def h_signed(exclude=()):
+    return _harness(build_signed)
 
 
 def h_all(exclude=()):
@@ -238,6 +306,12 @@ def replay(obligation, params, cex):
         d = build_member(L, params["member"], params["state"])
     elif obligation == "all_severed":
         d = build_all(L)
+    elif obligation.startswith("pair_missing_present"):
+        d = build_pair(L)
+    elif obligation == "member_state_subsets":
+        d = build_subsets(L, params.get("deep", False))
+    elif obligation == "wrapper_with_signature_blocks":
+        d = build_signed(L)
     elif obligation.startswith("length_boundaries"):
         d = build_boundary(L, params["sizes"])
     else:
